@@ -8,9 +8,9 @@ tie   : T-cor - every allocator event (construct/copy/rebind/socc/assign/destroy
 oracle: std::allocator twin, counting base allocator, pool count == live nodes, pool identity after copy/move/swap."""
 import os
 
-GEN = ['gen_uintmath.json', 'gen_poolconst.json', 'gen_mempool.json']
+GEN = ['gen_uintmath.json', 'gen_poolconst.json', 'gen_mempool.json', 'gen_alloc.json']
 KINDS = ['list', 'flist', 'map', 'set', 'mmap', 'umap', 'uset']
-PART = {'list': 0, 'flist': 0, 'map': 0, 'set': 0, 'mmap': 1, 'umap': 1, 'uset': 1, 'direct': 1, 'duo': 1, 'retarget': 1}
+PART = {'checkparams': 1, 'list': 0, 'flist': 0, 'map': 0, 'set': 0, 'mmap': 1, 'umap': 1, 'uset': 1, 'direct': 1, 'duo': 1, 'retarget': 1}
 TYPES = [(24, 8), (40, 8), (8, 8), (16, 8), (4, 4), (32, 16), (3, 1), (48, 16)]   # harness.cpp TypeOf<>
 
 # hand-made, crash-free scripts that VIOLATE hypothesis H (outside the claim): the model must still predict the real
@@ -219,6 +219,40 @@ def gen_retarget(r, sfx=''):
     return 'retarget %d %d %d %d %d %d %d' % (bc, cf, t1[0], t1[1], r.choice([0, 1, 2, 5, 15, 16, 17, 18, 31, 32, 33, 40, 70]), t2[0], t2[1])
 
 
+M64 = (1 << 64) - 1
+
+
+def expect_checkparams(bc, size, al):
+    """independent re-statement of MemPoolParams(size, al) + MemPool::pvCheckParams (incl. /repo e4ec548: bookkeeping overhead)"""
+    if al == 0: return 'CRASH'                                   # MOMO_ASSERT(blockAlignment > 0) in MemPoolParams
+    if bc == 1: bs = size if size > 0 else 1
+    elif size <= al: bs = (2 * al) & M64
+    else: bs = ((((size + al) & M64) - 1) & M64) // al * al & M64
+    if not (0 < al <= 1024) or bs == 0: return 'CRASH'           # MOMO_CHECK (assertion mode)
+    if bc != 1 and (bs % al != 0 or bs // al < 2): return 'CRASH'
+    addend = (al - min(16, al & -al)) & M64
+    overhead = addend + 3 * al + 2 + 16 + 2
+    if bs > (M64 - overhead) // bc: return 'length_error'
+    return 'ok %d %d' % (bs, al)
+
+
+def gen_checkparams(r, scale):
+    out = []
+    for sfx, (bc, cf) in CFGS.items():
+        lim = M64 // bc
+        sizes = [0, 1, 2, 7, 8, 9, 1023, 1024, 1025, lim - 4000, lim - 100, lim - 50, lim - 1, lim, lim + 1, lim + 64, 1 << 63, M64 - 1024, M64 - 1, M64]
+        als = [1, 2, 3, 8, 16, 24, 32, 1024, 1025, 0]
+        for sz in sizes:
+            for al in (als if scale > 1 else [r.choice(als), r.choice(als), 8]):
+                out.append('checkparams %d %d %d %d' % (bc, cf, sz % (M64 + 1), al))
+        for _ in range(10 * scale):
+            out.append('checkparams %d %d %d %d' % (bc, cf, min(M64, max(0, lim - r.below(8000)) + r.below(4000)), r.choice(als[:8])))
+    return out
+
+
+ALLOCATE0_CASE = 'direct N 0 A 0 0'     # allocate(0): momo asserts size > 0 (MemManager.h), std::allocator allows it: documented, not a violation
+
+
 def gen_cases(ctx, scale):
     r = ctx.rng; cases = []
     for kind in KINDS:
@@ -257,7 +291,20 @@ def gen_cases(ctx, scale):
         for i in range(6 * scale):
             cases.append(gen_elem(r, alloc))
     cases.append(SOCC_NOEXCEPT_CASE)
+    cases += gen_checkparams(r, scale)
+    cases.append(ALLOCATE0_CASE)
     return cases + REFUTE + [LIBSTDCXX_NODE_HANDLE]
+
+
+def run_bytes(cmd, inp_path, timeout=1500):
+    """like ctx.run_lines, but a crashing child may emit arbitrary bytes: decode leniently instead of failing the whole stage"""
+    import subprocess
+    env = dict(os.environ); env.setdefault('ASAN_OPTIONS', 'detect_leaks=1:abort_on_error=0')
+    try:
+        r = subprocess.run(cmd, stdin=open(inp_path, 'rb'), capture_output=True, timeout=timeout, env=env)
+        return r.returncode, r.stdout.decode('utf-8', 'replace').splitlines(), r.stderr.decode('utf-8', 'replace')
+    except subprocess.TimeoutExpired:
+        return 124, [], 'TIMEOUT'
 
 
 def run_harness(ctx, exes, cases, tag):
@@ -268,7 +315,7 @@ def run_harness(ctx, exes, cases, tag):
         if not idx: continue
         path = os.path.join(ctx.build, '%s.part%d.cases' % (tag, part))
         open(path, 'w').write('\n'.join(cases[i] for i in idx) + '\n')
-        rc, lines, err = ctx.run_lines([exes[part]], path)
+        rc, lines, err = run_bytes([exes[part]], path)
         for j, i in enumerate(idx):
             if j < len(lines): out[i] = lines[j]
         if rc != 0:
@@ -292,6 +339,14 @@ def oracle(ctx, cases, lines):
         if l is None:
             bad.append((c, '<no output>', 'harness produced no output (crash)')); continue
         head, ev, ob = split(l)
+        if c == ALLOCATE0_CASE:
+            info['allocate0_asserts_outside_protocol'] = head.startswith('CRASH'); continue
+        if c.startswith('checkparams '):
+            w_ = c.split(); exp = expect_checkparams(int(w_[1]), int(w_[3]), int(w_[4]))
+            got = 'CRASH' if head.startswith('CRASH') else head
+            bump('checkparams:' + exp.split()[0])
+            if got != exp: bad.append((c, head, 'MemPool parameter check: implementation %r, expected %r' % (got[:80], exp)))
+            continue
         if head.startswith('CRASH'):
             bad.append((c, head, 'the real code crashed: ' + head[:200])); continue
         st = dict(t.split('=', 1) for t in head.split()[1:] if '=' in t)
